@@ -79,6 +79,14 @@ class K:
         random.seed(s)
         np.random.seed(s + 1)
 
+    def under(self, obs):
+        obs_ = g(obs)
+        y = f(obs)
+
+    def clash(self):
+        pos = self.pos + 1
+        y = self.pos
+
     def rej(self):
         if bad:
             raise ValueError("no")
@@ -126,6 +134,12 @@ CASES = [
           effect_arg={"py": 0, "np": 0}, effects_absent_false=True, strict=False,
           outputs=[("eff_py", "Bool"), ("effarg_py", "Nat"), ("effarg_np", "Nat"), ("effseq_np_py", "Bool"), ("eff_torch", "Bool")]),
      ["true", "s", "(s + 1)", "true", "false"]),
+    ("`obs_` and `obs` are different variables",
+     dict(func="under", type="Nat", calls={"f": "f", "g": "g"}, outputs=[("y", "Nat"), ("obs_u", "Nat")]),
+     ["(f obs)", "(g obs)"]),
+    ("`self.pos` and a local `pos` under one Lean name: refused",
+     dict(func="clash", type="Nat", outputs=[("y", "Nat")], locals=["pos"]),
+     ["EXC Unsupported(\"t: distinct source names share a Lean name: [('pos', 'self.pos', 'pos')]\")"]),
     ("raise ends the path",
      dict(func="rej", type="Nat", leaf_types={"bad": "Bool"}, outputs=[("raised", "Bool"), ("ret", "Nat")], no_return="0"),
      ["(if bad then true else false)", "(if bad then 0 else (a + 1))"]),
